@@ -9,7 +9,9 @@ KEY = ("kk", 7, 9)
 # outcome another participant's allowed action can cause, per call
 # (directories are never removed, so a rename/link/create cannot newly lose its directory; an EEXIST from
 #  mkdir is only realistic together with the directory now existing: covered by the gated schedules)
-RACE = {"open": ["ENOENT"], "stat": ["ENOENT"], "unlink": ["ENOENT"], "link": ["EEXIST"], "opendir": []}
+# (futimens: the file was opened and then removed by a peer; on a network filesystem the descriptor is
+#  stale, which the library documents as one more way for a file to be absent)
+RACE = {"open": ["ENOENT"], "stat": ["ENOENT"], "unlink": ["ENOENT"], "link": ["EEXIST"], "opendir": [], "futimens": ["ESTALE"]}
 
 
 def shared(path):
@@ -39,7 +41,10 @@ def base_cases(ctx):
                 "empty": ["mkdir " + d],
                 "nodir": [],                               # cache / shard / temp directories do not exist yet
                 "present": [G.plant(G.key_path(w, "w", KEY), "A")],
-                "over": [G.plant("%s/a" % d, "x", mtime=G.T0, atime=G.T0 + 5), G.plant("%s/b" % d, "x", mtime=G.T0 + 1), G.plant("%s/c" % d, "x", mtime=G.T0 + 2), G.plant("%s/e" % d, "x", mtime=G.T0 + 3, atime=G.T0 + 9)],
+                # maintenance evicts several entries and moves SEVERAL read entries to the back (a lost race on
+                # one of them must not disturb the handling of the next)
+                "over": [G.plant("%s/a" % d, "x", mtime=G.T0, atime=G.T0 + 5), G.plant("%s/b" % d, "x", mtime=G.T0 + 1, atime=G.T0 + 6), G.plant("%s/c" % d, "x", mtime=G.T0 + 2),
+                         G.plant("%s/d" % d, "x", mtime=G.T0 + 3), G.plant("%s/e" % d, "x", mtime=G.T0 + 4, atime=G.T0 + 9), G.plant("%s/f" % d, "x", mtime=G.T0 + 5, atime=G.T0 + 9)],
                 "secondary": [G.plant("r0/" + KEY[0], "R")],
             }[pname]
             for opk in (("get",), ("touch",), ("set", "V", 1), ("put", "V", 1), ("ensure", "val:P:1"), ("gou", "replace", 0, "val:P:1")):
